@@ -1,3 +1,4 @@
+@property
 def spec(self):
     if self.delayedby is not None:
         delays = self.delay
